@@ -121,7 +121,13 @@ pub fn dealer_keys<C: Ciphersuite, L: Lab<C>>(
     let ids = identifiers::<C>(p);
     let r = match &p.ids {
         IdSet::Default => fc::keys::split(&key, p.n, p.t, fc::keys::IdentifierList::Default, lab.rng()),
-        _ => fc::keys::split(&key, p.n, p.t, fc::keys::IdentifierList::Custom(&ids), lab.rng()),
+        _ => {
+            // custom lists are handed over in a non-ascending order (rotated): the result must
+            // not depend on the order of the caller's list
+            let mut l = ids.clone();
+            l.rotate_left(1 + (p.seed as usize % 2));
+            fc::keys::split(&key, p.n, p.t, fc::keys::IdentifierList::Custom(&l), lab.rng())
+        }
     };
     if !lab.check(r.is_ok(), "split succeeds on valid parameters") {
         lab.leave();
